@@ -1,6 +1,7 @@
 """C12: job, resource and hold limits are never exceeded (DIRX, schedule DFS + occupancy monitor)."""
 
 import itertools
+import os
 
 from .. import projects
 from ..dirx import describe, fresh_world, session
@@ -162,6 +163,7 @@ def _run(spec, prefix):
 def jobs(tier, seed):
     out = []
     bound = 1 if tier == "quick" else 2
+    out.append({"part": "seam"})
     for entry, policy in itertools.product(project_list(tier), POLICIES):
         # two base schedules: non-preemptive and oldest-event-first (maximal overlap)
         name, proj, cfg, first = entry[:4]
@@ -179,7 +181,98 @@ def jobs(tier, seed):
     return out
 
 
+# ---------------------------------------------------------------------------------------------
+# Seam conformance: in the closed system a command is over when `launch_command` returns. The
+# real launchers must keep that promise: they may only return when the step's process is gone.
+# ---------------------------------------------------------------------------------------------
+
+SEAM_PLAN = """#!/usr/bin/env python3
+from stepup.core.api import static, step
+static("first.{ext}", "probe.py")
+step("./first.{ext}", inp=["first.{ext}"], out=["first.out"], resources="tok:1")
+step("./probe.py", inp=["probe.py"], out=["probe.out"], resources="tok:1")
+"""
+SEAM_PROBE = r"""#!/usr/bin/env python3
+import os, time
+alive = []
+for name in sorted(os.listdir(".")):
+    if name.endswith(".pid"):
+        pid = int(open(name).read())
+        try:
+            os.kill(pid, 0)
+            # a zombie is gone for all purposes: only a process that still runs counts
+            state = open(f"/proc/{{pid}}/stat").read().rsplit(")", 1)[1].split()[0]
+            if state != "Z":
+                alive.append(name)
+        except (ProcessLookupError, FileNotFoundError):
+            pass
+open("probe.out", "w").write("alive=" + ",".join(alive) + "\n")
+"""
+# what the first step leaves behind when its main script ends
+SEAM_BEHAVIOURS = {
+    "plain": ("py", "open('first.out','w').write('x')\n"),
+    "thread": ("py", "import threading, time\n"
+               "def work():\n    time.sleep(1.0)\n"
+               "threading.Thread(target=work).start()\nopen('first.out','w').write('x')\n"),
+    "executor": ("py", "import concurrent.futures, time\n"
+                 "ex = concurrent.futures.ThreadPoolExecutor(1)\nex.submit(time.sleep, 1.0)\n"
+                 "open('first.out','w').write('x')\n"),
+    "atexit": ("py", "import atexit, time\natexit.register(time.sleep, 1.0)\n"
+               "open('first.out','w').write('x')\n"),
+    "shell_wait": ("sh", "echo x > first.out\n(sleep 1) &\nwait\n"),
+}
+
+
+def run_seam(spec, acc):
+    import shutil
+    import subprocess
+
+    from ..conform import real_build
+    from ..runner import scratch_dir
+
+    for name, (ext, body) in SEAM_BEHAVIOURS.items():
+        for extra in ((), ("--no-forkserver",)):
+            root = scratch_dir("c12seam")
+            try:
+                head = "#!/usr/bin/env python3\nimport os\nopen('first.pid','w').write(str(os.getpid()))\n" \
+                    if ext == "py" else "#!/bin/sh\necho $$ > first.pid\n"
+                files = {"plan.py": SEAM_PLAN.format(ext=ext), f"first.{ext}": head + body,
+                         "probe.py": SEAM_PROBE.replace("{{", "{").replace("}}", "}")}
+                for rel, content in files.items():
+                    with open(os.path.join(root, rel), "w") as fh:
+                        fh.write(content)
+                    os.chmod(os.path.join(root, rel), 0o755)
+                try:
+                    rc, _raw, text = real_build(root, njob=1, extra_args=("--resources", "tok:1", *extra))
+                except subprocess.TimeoutExpired:
+                    acc.violation(f"C12|seam|{name}|timeout", {"behaviour": name, "args": extra}, None)
+                    continue
+                acc.evaluations += 1
+                acc.nontrivial.add(h8(["seam", name, extra]))
+                acc.count("real_builds")
+                probe = os.path.join(root, "probe.out")
+                got = open(probe).read().strip() if os.path.exists(probe) else None
+                if rc != 0 or got is None:
+                    if "--no-forkserver" in extra and "no such option" in text.lower():
+                        acc.count("no_forkserver_option_unknown")
+                        continue
+                    acc.violation(f"C12|seam|{name}|build-failed", {"behaviour": name, "args": extra, "rc": rc,
+                                                                     "output": text[-1500:]}, None)
+                elif got != "alive=":
+                    acc.violation(f"C12|seam|{name}|second-command-started-while-first-process-alive",
+                                  {"behaviour": name, "args": extra, "probe": got,
+                                   "why": "with one job and one unit of the resource the second command "
+                                          "started while the first step's process was still running"}, None)
+                acc.sample({"behaviour": name, "args": extra, "probe": got}, limit=6)
+            finally:
+                shutil.rmtree(root, ignore_errors=True)
+
+
 def run_job(spec):
+    if spec.get("part") == "seam":
+        acc = Acc()
+        run_seam(spec, acc)
+        return acc
     acc = Acc()
     name = spec["name"]
 
